@@ -53,6 +53,7 @@ fn main() {
         "tokens-debug" => c07::cmd_tokens_debug(rest),
         "shape5-files" => c05::cmd_files(rest),
         "shape5-record" => c05::cmd_record(rest),
+        "types-texts" => c17::cmd_texts(rest),
         "types-mutants" => c17::cmd_mutants(rest),
         "printer-debug" => c17::cmd_printer_debug(rest),
         "c16-replay" => c16::cmd_replay(rest),
